@@ -148,4 +148,38 @@ PROPS = {
         rule='product exploration of b, bc, bq, b11, m, mf, mc on machines of the common feature subset: every reachable product state x event x '
              'guard valuation (x one nested submission); an execution is non-trivial when a callback ran',
     ),
+    'C17': dict(
+        level='model_checking', design_ref='5/C17', oracle='C17',
+        technique='explicit-state exploration; at every distinct (state, introspection answer) pair the flag answers (default/OR and AND) are recomputed from the active configuration; '
+                  'flags read inside every behaviour compared with the policy-defined configuration of the reference model',
+        quick=[S('flags', introspect=True, observe_flags=True), S('block', introspect=True, observe_flags=True),
+               S('flags_before', cfgs=['b', 'b11', 'm', 'mc'], introspect=True, observe_flags=True),
+               S('flags_after_exit', cfgs=['b', 'm'], introspect=True, observe_flags=True)],
+        thorough=[S('flags', introspect=True, observe_flags=True), S('block', introspect=True, observe_flags=True)] +
+                 [S('flags_' + p, introspect=True, observe_flags=True) for p in ('before', 'after_exit', 'after_action', 'after_entry')] +
+                 [S('hier2', introspect=True)],
+        rule='every reachable configuration x every flag x {default, OR, AND}; the introspection answers are part of the state identity so a path-dependent answer '
+             'creates a second state instead of hiding; inside behaviours: every callback position under the switch policies',
+    ),
+    'C18': dict(
+        level='model_checking', design_ref='5/C18', oracle='C18',
+        technique='explicit-state exploration of exact / base-class / Kleene triggers incl. queued and deferred delivery + reference-model conformance + payload checks',
+        quick=[S('evt', ops=['start', 'stop', 'pe:1', 'pe:2', 'pe:3', 'pe:4', 'pe:5', 'eq:3', 'eq:2', 'xq'], qbound=2)],
+        thorough=[S('evt', ops=['start', 'stop', 'pe:1', 'pe:2', 'pe:3', 'pe:4', 'pe:5', 'eq:1', 'eq:3', 'eq:2', 'xq', 'xs'], qbound=3)],
+        rule='every configuration x every event type of the hierarchy (payload = serial-derived checksum, verified at every callback) x guard valuations, '
+             'delivered directly, from the queue and after deferral; back (deque and circular queues) and backmp11 flat_fold',
+    ),
+    'C19': dict(
+        level='model_checking', design_ref='5/C19', oracle='C19',
+        technique='explicit-state exploration of the same machine under the four active-state-switch policies; ids reported inside every behaviour compared with the policy table of the reference model',
+        quick=[S('sw_' + p) for p in ('after_entry', 'after_exit', 'after_action', 'before')],
+        thorough=[S('sw_' + p) for p in ('after_entry', 'after_exit', 'after_action', 'before')] +
+                 [S('flags_' + p) for p in ('after_exit', 'before')],
+        lockstep_quick=[dict(zoo='sw_after_entry', peers=[('sw_' + p, c) for p in ('after_entry', 'after_exit', 'after_action', 'before')], ops=pe_all('sw_before'))
+                        for c in ('b', 'm')],
+        lockstep_thorough=[dict(zoo='sw_after_entry', peers=[('sw_' + p, c) for p in ('after_entry', 'after_exit', 'after_action', 'before')], ops=pe_all('sw_before') + ['eq:1', 'xq'])
+                           for c in ('b', 'bc', 'b11', 'm', 'mf', 'mc')],
+        rule='each of the four policies x every external transition (into/out of the submachine, inside orthogonal regions) from every reachable configuration x guard valuations, '
+             'observed from every guard / exit / action / entry position',
+    ),
 }
